@@ -389,8 +389,9 @@ impl Region {
             false
         };
 
-        let meta = self.meta();
-        let meta_flushed = meta.flush(self.index(), &regions)?;
+        // The metadata guard must be gone before the file lock is taken below
+        // (lock order: file → meta; punch_holes holds file and waits for meta).
+        let meta_flushed = self.meta().flush(self.index(), &regions)?;
 
         // Data MUST be durable before metadata — if we crash after metadata sync
         // but before data sync, metadata could reference unwritten data.
